@@ -94,6 +94,14 @@ var emails = []string{"user@example.com", "a@b", "a@b.c", "@b.c", "a@", "a", "a@
 	"A!#$%&'*+/=?^_`{|}~-@x.y", "a@" + strings.Repeat("x", 63) + ".com", "a@" + strings.Repeat("x", 64) + ".com", "a@" + strings.Repeat("x", 62) + ".c", "a@x." + strings.Repeat("y", 61),
 	"é@x.y", "a@é.y", "a@b.c\n", "\na@b.c", "a@b.c ", "a(b)@c.d", "a@[1.2.3.4]", "\"a\"@b.c", "a@b,c", "a@1.2", ".@a.b"}
 
+func init() {
+	// label lengths around the limit of 63, in first, middle and last position
+	for _, n := range []int{1, 62, 63, 64, 65, 100} {
+		l := strings.Repeat("a", n)
+		emails = append(emails, "user@"+l, "user@"+l+".com", "user@example."+l, "user@a."+l+".b", "user@"+l+"."+l, "user@x.y."+l, "u@"+l[:n-1]+"-", "u@-"+l[:n-1])
+	}
+}
+
 var uuids = []string{"550e8400-e29b-41d4-a716-446655440000", "550E8400-E29B-41D4-A716-446655440000", "550e8400e29b41d4a716446655440000", "550e8400-e29b-41d4-a716-44665544000",
 	"550e8400-e29b-41d4-a716-4466554400000", "g50e8400-e29b-41d4-a716-446655440000", "550e8400-e29b-41d4-a716_446655440000", " 550e8400-e29b-41d4-a716-446655440000",
 	"550e8400-e29b-41d4-a716-446655440000 ", "550e8400-e29b-41d4-a716-44665544000g", "550e840-0e29b-41d4-a716-446655440000", "00000000-0000-0000-0000-000000000000", "",
